@@ -27,7 +27,7 @@ m = {
     "version": 1,
     "setup_cmd": "./setup.sh",
     "hooks": {"guard": "GNU_GAMA_VERIF", "enable": "harness/CMakeLists.txt compiles a mirror of /repo's working tree with -DGNU_GAMA_VERIF (no hook is currently needed; the define is set for completeness)",
-              "baseline_off_cmd": "cmake --build /repo/_build && ctest --test-dir /repo/_build -j8 --timeout 900",
+              "baseline_off_cmd": "python3 /verif/baseline_check.py",
               "source_commits": [], "add_only": True},
     "engines": [
         {"name": "hypothesis+gdrv", "path": "vlib/runner.py", "serves_properties": sorted(k for k, v in CHECKS.items() if not v.get("na")),
